@@ -352,11 +352,12 @@ PROPS = {
    technique='exhaustive enumeration of the parameter lattice (l<r, b<t, near<far, fovy, aspect, width/height, viewports) x every builder variant in all four clip-control build configurations; oracle = the view-volume corners must map to the clip-cube corners, dispatch must be bit-identical to the selected suffixed variant',
    text='Every ortho/frustum/perspective/perspectiveFov/infinitePerspective/tweakedInfinitePerspective variant (RH/LH x NO/ZO) maps its eight view-volume corners (infinite: near corners + depth monotone and bounded along 2^k.near) to the clip cube; perspective == symmetric frustum; perspectiveFov == perspective(w/h); in each of the four macro configurations the unsuffixed and half-suffixed builders are bit-identical to the fully suffixed variant the macros select; project/unProject/pickMatrix against the formula, mutual inverses, cube -> viewport x [0,1]. project/unProject also on extreme volumes (near,far) = (2e7,1e8) and (1e-5,1e-2), where the homogeneous w is far from 1; aligned SIMD matrix types as a further configuration.',
    rule='full product of the DESIGN section C08 parameter grids (quick) / denser grids (thorough), float and double, in each configuration; cases whose error bound cannot be formed (singular to working precision) are counted trivial.'),
- 'C09': dict(src='drivers/c09.cpp', level='exploration', configs=['default', 'lh', 'zo', 'lh_zo', 'quat_wxyz', 'intr_sse2_defaligned', 'intr_avx2_defaligned_wxyz'], configs_quick=['default', 'lh', 'zo', 'lh_zo', 'quat_wxyz', 'intr_sse2_defaligned'], flags=['-DC09_RECOMPOSE_DOUBLE'],
+ 'C09': dict(src='drivers/c09.cpp', level='exploration', configs=['default', 'lh', 'zo', 'lh_zo', 'quat_wxyz', 'quat_ctor_xyzw', 'intr_sse2_defaligned', 'intr_avx2_defaligned_wxyz'], configs_quick=['default', 'lh', 'zo', 'lh_zo', 'quat_wxyz', 'quat_ctor_xyzw', 'intr_sse2_defaligned'], flags=['-DC09_RECOMPOSE_DOUBLE'],
    technique='exhaustive enumeration of base matrices x vectors x axes x angle ladders x shear parameters through every transform builder, against M * E with E built entrywise in long double; lookAt frames and TRS(+skew,+perspective) compositions through decompose/recompose; default and left-handed builds',
    text='translate/rotate/scale/shear (fast and _slow forms), gtx transform/transform2/rotate_vector/rotate_normalized_axis/matrix_transform_2d/matrix_interpolation helpers equal M times the elementary matrix; lookAtRH/LH are rigid, send eye to 0, the view direction to -z/+z and up into the +y half-plane, and lookAt follows the configured handedness; recompose(decompose(M)) == M over rotation set x scales x translations x skews x perspective kinds with every quaternion-extraction branch reached. Also under GLM_FORCE_QUAT_DATA_WXYZ (decompose writes the quaternion by index) and with aligned SIMD types.',
    rule='M(36 base matrices) x VEC3L(378) x 80 axes x 133 (805) angles x shear grids; 3.39M (31M) TRS compositions; invalid lookAt frames skipped (trivial).'),
- 'C10': dict(src='drivers/c10.cpp', level='exploration', configs=['default', 'intr_sse2_defaligned', 'intr_avx2_defaligned'], configs_quick=['default', 'intr_sse2_defaligned'],
+ 'C10': dict(src='drivers/c10.cpp', level='exploration', configs=['default', 'intr_sse2_defaligned', 'intr_avx2_defaligned', 'cxx98'], configs_quick=['default', 'intr_sse2_defaligned', 'cxx98'],   # cxx98: the pre-C++11 constructor twins that affineInverse / inverseTranspose go through
+  
    technique='exhaustive enumeration of complete small-integer matrix grids ({-2..2}^4, {-2..2}^9, {0,1}^16 / {-1,0,1}^16 / {-1,0,1,2}^16) and scaled / near-singular families, against an exact __int128 adjugate/determinant reference with the condition number computed exactly',
    text='determinant (Leibniz, multiplicativity, transpose invariance), inverse (both residuals bounded by c.N.u.cond, exact for unimodular integer matrices), inverseTranspose, affineInverse, operator/ (mat/mat, mat/vec, vec/mat), gtx adjugate/diagonal*/qr/rq/matrix_query, integer determinant. By multilinearity a full {0,1}/{-1,0,1} grid is a complete identity test of the cofactor polynomials. M /= M (divisor aliasing the dividend) against M / M and the identity; aligned SIMD matrices (SSE2, AVX2) as further configurations.',
    rule='SMALLMAT grids complete; scaled copies 2^k; near-singular M0 + 2^-p E_ij; matrices beyond the stated condition bound get the determinant check only.'),
